@@ -167,3 +167,128 @@ Proof.
     destruct (self_stuck_run cfg tr' s s' o a HC H St R') as [[r E] L].
     split; auto. unfold done. rewrite E. reflexivity.
 Qed.
+
+(* ---- (b) crossing sends: a -> b while b -> a ---- *)
+Definition cross_stuck (s : st) (o1 o2 : opid) (a b : nid) : Prop :=
+  (exists r, op_of s o1 = SRun [a] [AAcq b; ARel b; ARel a] (Some r)) /\
+  (exists r, op_of s o2 = SRun [b] [AAcq a; ARel a; ARel b] (Some r)) /\
+  lock_of s a = Some (o1, false) /\ lock_of s b = Some (o2, false).
+
+Lemma cross_stuck_step cfg s e s' o1 o2 a b :
+  all_disciplined cfg -> Own s -> cross_stuck s o1 o2 a b -> step cfg s e = Some s' -> cross_stuck s' o1 o2 a b.
+Proof.
+  intros HC HS ([r1 E1] & [r2 E2] & La & Lb) ST.
+  pose proof (waiting_blocked _ _ _ _ _ _ _ _ _ _ HC HS E1 Lb ST) as N1.
+  pose proof (waiting_blocked _ _ _ _ _ _ _ _ _ _ HC HS E2 La ST) as N2.
+  destruct (step_frame _ _ _ _ HC HS ST) as [F1 F2].
+  repeat split.
+  - exists r1. rewrite F1; auto.
+  - exists r2. rewrite F1; auto.
+  - apply F2; auto.
+  - apply F2; auto.
+Qed.
+
+Lemma cross_stuck_run cfg tr : forall s s' o1 o2 a b,
+  all_disciplined cfg -> Own s -> cross_stuck s o1 o2 a b -> run cfg s tr = Some s' -> cross_stuck s' o1 o2 a b.
+Proof.
+  induction tr as [|e t IH]; simpl; intros s s' o1 o2 a b HC HS K R.
+  - inv R. auto.
+  - destruct (step cfg s e) as [s0|] eqn:E; try discriminate.
+    apply (IH s0 s' o1 o2 a b); auto. eapply own_step; eauto. eapply cross_stuck_step; eauto.
+Qed.
+
+Definition cross_trace (o1 o2 : opid) (a b : nid) : list ev :=
+  [EIssue o1; EReq a o1 0; EAcq a o1 0; EIssue o2; EReq b o2 1; EAcq b o2 1; EReq b o1 2; EReq a o2 3].
+
+Lemma crossing_reaches_stuck cfg s o1 o2 a b :
+  all_disciplined cfg -> Own s -> o1 <> o2 -> a <> b ->
+  kind_of cfg o1 = KSend a b -> kind_of cfg o2 = KSend b a ->
+  op_of s o1 = SIdle -> op_of s o2 = SIdle -> lock_of s a = None -> lock_of s b = None ->
+  a < length (locks s) -> b < length (locks s) ->
+  exists s', run cfg s (cross_trace o1 o2 a b) = Some s' /\ cross_stuck s' o1 o2 a b.
+Proof.
+  intros HC HS No Nab K1 K2 E1 E2 La Lb Ra Rb.
+  assert (R1 : o1 < length (ops s)) by (apply op_of_range; congruence).
+  assert (R2 : o2 < length (ops s)) by (apply op_of_range; congruence).
+  pose proof (own_orph _ HS) as Horph.
+  (* o1: issue, request a, granted a *)
+  set (s1 := set_op s o1 (SRun [] (prog_of (kind_of cfg o1)) None)).
+  assert (S1 : step cfg s (EIssue o1) = Some s1) by (apply step_issue; auto; rewrite K1; reflexivity).
+  assert (X1 : op_of s1 o1 = SRun [] [AReq a; AAcq a; AReq b; AAcq b; ARel b; ARel a] None).
+  { unfold s1. rewrite op_set_eq by auto. rewrite K1. reflexivity. }
+  set (s2 := set_op s1 o1 (SRun [] [AAcq a; AReq b; AAcq b; ARel b; ARel a] (Some 0))).
+  assert (S2 : step cfg s1 (EReq a o1 0) = Some s2) by (apply step_req; auto).
+  assert (L1 : length (ops s1) = length (ops s)) by (unfold s1; simpl; apply upd_length).
+  assert (X2 : op_of s2 o1 = SRun [] [AAcq a; AReq b; AAcq b; ARel b; ARel a] (Some 0)) by (unfold s2; apply op_set_eq; lia).
+  set (s3 := set_lock (set_op s2 o1 (SRun [a] [AReq b; AAcq b; ARel b; ARel a] None)) a (Some (o1, false))).
+  assert (S3 : step cfg s2 (EAcq a o1 0) = Some s3) by (apply step_acq; auto).
+  assert (L2 : length (ops s2) = length (ops s)) by (unfold s2; simpl; rewrite upd_length; auto).
+  assert (L3 : length (ops s3) = length (ops s)) by (unfold s3; simpl; rewrite upd_length; auto).
+  assert (X3 : op_of s3 o1 = SRun [a] [AReq b; AAcq b; ARel b; ARel a] None).
+  { unfold s3. rewrite op_set_lock. apply op_set_eq; lia. }
+  assert (Y3 : op_of s3 o2 = SIdle).
+  { unfold s3. rewrite op_set_lock. rewrite op_set_neq by auto. unfold s2. rewrite op_set_neq by auto.
+    unfold s1. rewrite op_set_neq by auto. auto. }
+  (* o2: issue, request b, granted b *)
+  set (s4 := set_op s3 o2 (SRun [] (prog_of (kind_of cfg o2)) None)).
+  assert (S4 : step cfg s3 (EIssue o2) = Some s4) by (apply step_issue; auto; rewrite K2; reflexivity).
+  assert (X4 : op_of s4 o2 = SRun [] [AReq b; AAcq b; AReq a; AAcq a; ARel a; ARel b] None).
+  { unfold s4. rewrite op_set_eq by lia. rewrite K2. reflexivity. }
+  set (s5 := set_op s4 o2 (SRun [] [AAcq b; AReq a; AAcq a; ARel a; ARel b] (Some 1))).
+  assert (S5 : step cfg s4 (EReq b o2 1) = Some s5) by (apply step_req; auto).
+  assert (L4 : length (ops s4) = length (ops s)) by (unfold s4; simpl; rewrite upd_length; auto).
+  assert (X5 : op_of s5 o2 = SRun [] [AAcq b; AReq a; AAcq a; ARel a; ARel b] (Some 1)) by (unfold s5; apply op_set_eq; lia).
+  assert (Lb5 : lock_of s5 b = None).
+  { unfold s5, s4. rewrite !lock_set_op. unfold s3. rewrite lock_set_neq by auto. auto. }
+  set (s6 := set_lock (set_op s5 o2 (SRun [b] [AReq a; AAcq a; ARel a; ARel b] None)) b (Some (o2, false))).
+  assert (S6 : step cfg s5 (EAcq b o2 1) = Some s6).
+  { apply step_acq; auto. unfold s5, s4, s3; simpl. rewrite upd_length. auto. }
+  assert (L5 : length (ops s5) = length (ops s)) by (unfold s5; simpl; rewrite upd_length; auto).
+  assert (L6 : length (ops s6) = length (ops s)) by (unfold s6; simpl; rewrite upd_length; auto).
+  assert (X6 : op_of s6 o1 = SRun [a] [AReq b; AAcq b; ARel b; ARel a] None).
+  { unfold s6. rewrite op_set_lock. rewrite op_set_neq by auto. unfold s5. rewrite op_set_neq by auto.
+    unfold s4. rewrite op_set_neq by auto. auto. }
+  (* both arrivals start polling *)
+  set (s7 := set_op s6 o1 (SRun [a] [AAcq b; ARel b; ARel a] (Some 2))).
+  assert (S7 : step cfg s6 (EReq b o1 2) = Some s7) by (apply step_req; auto).
+  assert (X7 : op_of s7 o2 = SRun [b] [AReq a; AAcq a; ARel a; ARel b] None).
+  { unfold s7. rewrite op_set_neq by auto. unfold s6. rewrite op_set_lock. apply op_set_eq; lia. }
+  set (s8 := set_op s7 o2 (SRun [b] [AAcq a; ARel a; ARel b] (Some 3))).
+  assert (S8 : step cfg s7 (EReq a o2 3) = Some s8) by (apply step_req; auto).
+  assert (L7 : length (ops s7) = length (ops s)) by (unfold s7; simpl; rewrite upd_length; auto).
+  exists s8. split.
+  - unfold cross_trace.
+    rewrite run_cons, S1, run_cons, S2, run_cons, S3, run_cons, S4, run_cons, S5, run_cons, S6, run_cons, S7, run_cons, S8.
+    reflexivity.
+  - repeat split.
+    + exists 2. unfold s8. rewrite op_set_neq by auto. unfold s7. apply op_set_eq. lia.
+    + exists 3. unfold s8. apply op_set_eq. lia.
+    + unfold s8, s7. rewrite !lock_set_op. unfold s6. rewrite lock_set_neq by auto.
+      rewrite lock_set_op. unfold s5, s4. rewrite !lock_set_op. unfold s3. apply lock_set_eq. auto.
+    + unfold s8, s7. rewrite !lock_set_op. unfold s6. apply lock_set_eq.
+      unfold s5, s4, s3; simpl. rewrite upd_length. auto.
+Qed.
+
+Theorem crossing_sends_deadlock_lemma cfg nn o1 o2 a b :
+  all_disciplined cfg -> o1 <> o2 -> a <> b ->
+  kind_of cfg o1 = KSend a b -> kind_of cfg o2 = KSend b a ->
+  o1 < length cfg -> o2 < length cfg -> a < nn -> b < nn ->
+  exists tr s, run cfg (init nn cfg) tr = Some s /\
+    forall tr' s', run cfg s tr' = Some s' ->
+      done s' o1 = false /\ done s' o2 = false /\ lock_of s' a = Some (o1, false) /\ lock_of s' b = Some (o2, false).
+Proof.
+  intros HC No Nab K1 K2 R1 R2 Ra Rb.
+  destruct (crossing_reaches_stuck cfg (init nn cfg) o1 o2 a b) as (s & R & St); auto.
+  - apply own_init.
+  - apply op_of_init_idle; auto.
+  - apply op_of_init_idle; auto.
+  - apply lock_of_init.
+  - apply lock_of_init.
+  - unfold init; simpl. rewrite repeat_length. auto.
+  - unfold init; simpl. rewrite repeat_length. auto.
+  - exists (cross_trace o1 o2 a b), s. split; auto.
+    intros tr' s' R'.
+    assert (Own s) by (eapply own_run; eauto; apply own_init).
+    destruct (cross_stuck_run cfg tr' s s' o1 o2 a b HC H St R') as ([r1 E1] & [r2 E2] & La & Lb).
+    unfold done. rewrite E1, E2. auto.
+Qed.
